@@ -1,9 +1,11 @@
 (* C12 — verdicts do not depend on source layout. Statements only.
    Proved here: invariance under reordering the top-level declarations of a file and under moving declarations
    between the non-excluded files of a package (the transformations that the real defects of the pinned tree
-   depended on). Blank lines / comments / gofmt / local renaming are covered by the correspondence only. *)
+   depended on), and - positions being opaque to the four AST checkers - under ANY relabelling of the positions
+   (blank lines, ordinary comments, gofmt), given that the suppression function answers alike.  That the @ignore scopes
+   themselves follow a monotone relabelling, and local renaming, are covered by the correspondence only. *)
 From Coq Require Import List String ZArith Bool Permutation.
-From GG Require Import Base.Strs Model.Config Model.GoAst Model.Annots Model.Analyze Exec Proofs.WalkProofs Proofs.CheckerProofs.
+From GG Require Import Base.Strs Model.Config Model.GoAst Model.Annots Model.Analyze Exec Proofs.WalkProofs Proofs.CheckerProofs Proofs.LayoutProofs.
 Import ListNotations.
 Local Open Scope Z_scope.
 
@@ -72,6 +74,25 @@ Theorem C12_candidates_per_declaration :
       = flat_map (fun d => flat_map (pkgo_cands fs cur curname) (preorder d)) (f_decls f).
 Proof. intros. split; apply flat_map_flat_map. Qed.
 
+(* positions are opaque: relabel every position of the files by any function phi - the diagnostics are the same
+   diagnostics at the relabelled positions, same codes, same messages, nothing added or lost (for the once-per-file
+   codes: the same uses are the reported ones), whenever suppression at a relabelled position answers as before *)
+Theorem C12_positions_are_opaque :
+  forall (phi : Z -> Z) fs cur cur_name (sup sup' : string -> Z -> bool) files,
+    (forall c q, sup' c (phi q) = sup c q) ->
+    report_filter sup' (imm_candidates fs cur (map (rl_file phi) files)) = map (rd phi) (report_filter sup (imm_candidates fs cur files)) /\
+    report_filter sup' (ctor_candidates fs cur (map (rl_file phi) files)) = map (rd phi) (report_filter sup (ctor_candidates fs cur files)) /\
+    tonl_diags fs cur sup' (map (rl_file phi) files) = map (rd phi) (tonl_diags fs cur sup files) /\
+    pkgo_diags fs cur cur_name sup' (map (rl_file phi) files) = map (rd phi) (pkgo_diags fs cur cur_name sup files).
+Proof.
+  intros phi fs cur cur_name sup sup' files H. repeat split.
+  - rewrite imm_candidates_rl. apply (report_filter_rl phi sup sup' H).
+  - rewrite ctor_candidates_rl. apply (report_filter_rl phi sup sup' H).
+  - apply (tonl_diags_rl phi fs cur sup sup' H).
+  - apply (pkgo_diags_rl phi fs cur cur_name sup sup' H).
+Qed.
+
+Print Assumptions C12_positions_are_opaque.
 Print Assumptions C12_immutable_layout.
 Print Assumptions C12_constructor_layout.
 Print Assumptions C12_key_reported_iff.
